@@ -6,6 +6,9 @@ HERE = os.path.dirname(os.path.dirname(os.path.abspath(__file__)))
 
 # id -> (technique, level text, level note, design ref)
 CLAIMED = {
+ "C11": ("lock-region analysis (single Lock + deferred Unlock dominating every guarded access, helper closure), dominance (compaction before lookup), control-equivalent pairing of map/list mutations with closed-world enumeration, closed guard sets for eviction over go/ssa",
+         "Decides the structural necessary conditions only: one critical section around lookup+insert, all accesses to map/list under the mutex, compaction with the caller's time before the lookup, map/list mutated only in matching same-block pairs on the same entry, CSPRNG key with a single writer, eviction only when full (re-tested per entry, capacity 102400), TTL disabled or age >= ttl, reset on negative age. Behaviour over histories and linearizability are not decided.",
+         "go/types+go/ssa faithful; sync.Mutex/container/list behave as documented", "DESIGN.md section 4, C11"),
  "C18": ("typestate/ordering of the file-replacement helper with error-chain analysis, who-may-call rules for in-place writes, must-pass-through for regeneration and write-back, provenance of advertised arguments over go/ssa",
          "Decides that every persistent file is replaced by temp-in-same-dir -> write -> sync -> close -> rename with the rename guarded by all three successes and the target never touched before it; that no in-place create/truncate of a state path exists (named exemptions); that a new identity is generated only under os.IsNotExist of the state-file read; that every successful start writes the possibly overridden state back and advertises cert/iat-mode from it; that the cert writer/reader agree and the client accepts every advertised iat-mode. File-system behaviour under power loss is not decided.",
          "go/types+go/ssa faithful; POSIX rename replaces atomically", "DESIGN.md section 4, C18"),
